@@ -43,6 +43,7 @@ fn main() {
     let code = match id {
         "C02" => props::c02::run(ctx),
         "C03" => props::c03::run(ctx),
+        "C04" => props::c04::run(ctx),
         "C05" => props::c05::run(ctx),
         "C06" => props::c06::run(ctx),
         "C10" => props::c10::run(ctx),
@@ -71,6 +72,7 @@ fn replay_file(path: &str) -> i32 {
         match id.as_str() {
             "C02" => props::c02::replay(case),
             "C03" => props::c03::replay(case),
+            "C04" => props::c04::replay(case),
             "C05" => props::c05::replay(case),
             "C06" => props::c06::replay(case),
             "C10" => props::c10::replay(case),
